@@ -480,6 +480,56 @@ fn build(spec: &Spec) -> Option<Built> {
             };
             (m, exp(outs, fa && fb))
         }
+        // ---- pipelines (two levels)
+        "pz" => {
+            let tf = tbl_nat(spec.p("f")?)?;
+            let tp = tbl_nat(spec.p("p")?)?;
+            let a = items(&spec.nat_src("A")?.0);
+            let b = items(&spec.nat_src("B")?.0);
+            let (tf2, tp2) = (tf.clone(), tp.clone());
+            (
+                pm(spec.pull_nat("A")?.map(move |x| at(&tf2, x)).zip(spec.pull_nat("B")?.filter(move |x| at(&tp2, *x) != 0))),
+                exp(shows(a.into_iter().map(|x| at(&tf, x)).zip(b.into_iter().filter(|x| at(&tp, *x) != 0))), false),
+            )
+        }
+        "pt" => {
+            let t = tbl_list(spec.p("f")?)?;
+            let n = spec.n("n")?;
+            let a = items(&spec.nat_src("A")?.0);
+            let t2 = t.clone();
+            (
+                pm(spec.pull_nat("A")?.flat_map(move |x| at(&t2, x)).take(n)),
+                exp(shows(a.into_iter().flat_map(|x| at(&t, x)).take(n)), true),
+            )
+        }
+        "pc" => {
+            let n = spec.n("n")?;
+            let a = items(&spec.nat_src("A")?.0);
+            let b = items(&spec.nat_src("B")?.0);
+            (
+                pm(spec.pull_nat("A")?.fuse().chain(spec.pull_nat("B")?.skip(n))),
+                exp(shows(a.into_iter().chain(b.into_iter().skip(n))), fb),
+            )
+        }
+        "pl" => {
+            if !fb {
+                return None; // `Enumerate<B>` must be fused for `zip_longest`
+            }
+            let tp = tbl_nat(spec.p("p")?)?;
+            let a = items(&spec.nat_src("A")?.0);
+            let b = items(&spec.nat_src("B")?.0);
+            let tp2 = tp.clone();
+            (
+                pm(spec.pull_nat("A")?.take_while(move |x| at(&tp2, *x) != 0).fuse().zip_longest(spec.pull_nat("B")?.enumerate())),
+                exp(
+                    shows(itertools::Itertools::zip_longest(
+                        a.into_iter().take_while(|x| at(&tp, *x) != 0),
+                        b.into_iter().enumerate(),
+                    )),
+                    true,
+                ),
+            )
+        }
         // ---- futures draining a pull
         "collect" => {
             let its = items(&spec.nat_src("A")?.0);
@@ -769,9 +819,9 @@ fn shapes(max_items: usize, max_pend: usize) -> Vec<Vec<bool>> {
 pub const UNARY: &[&str] = &[
     "map", "filter", "filter_map", "inspect", "take_while", "enumerate", "skip", "skip_while", "take", "fuse",
     "flat_map", "flatten", "filter_map_async", "flat_map_stream", "flatten_stream", "from_fn", "poll_fn", "stream",
-    "stream_ready", "stream_compat", "collect", "for_each", "acc",
+    "stream_ready", "stream_compat", "collect", "for_each", "acc", "pt",
 ];
-pub const BINARY: &[&str] = &["chain", "zip", "zip_longest", "cross", "either"];
+pub const BINARY: &[&str] = &["chain", "zip", "zip_longest", "cross", "either", "pz", "pc", "pl"];
 pub const NULLARY: &[&str] = &["iter", "once", "empty", "repeat", "pending"];
 
 fn rnd_tbl(r: &mut Rng, f: impl Fn(&mut Rng) -> String) -> String {
@@ -791,7 +841,17 @@ fn rnd_params(r: &mut Rng, name: &str) -> String {
         "map" => format!(" f={}", rnd_tbl(r, |r| r.below(5).to_string())),
         "filter" | "take_while" | "skip_while" => format!(" p={}", rnd_tbl(r, |r| r.below(2).to_string())),
         "filter_map" => format!(" f={}", rnd_tbl(r, |r| if r.chance(1, 3) { "-".into() } else { r.below(5).to_string() })),
-        "skip" | "take" => format!(" n={}", r.below(5)),
+        "skip" | "take" | "pc" => format!(" n={}", r.below(5)),
+        "pz" => format!(" f={} p={}", rnd_tbl(r, |r| r.below(5).to_string()), rnd_tbl(r, |r| r.below(2).to_string())),
+        "pl" => format!(" p={}", rnd_tbl(r, |r| if r.chance(1, 4) { "0".to_string() } else { "1".to_string() })),
+        "pt" => format!(
+            " n={} f={}",
+            r.below(7),
+            rnd_tbl(r, |r| {
+                let n = r.below(4);
+                if n == 0 { "_".into() } else { (0..n).map(|_| r.below(5).to_string()).collect::<Vec<_>>().join(".") }
+            })
+        ),
         "flat_map" => format!(
             " f={}",
             rnd_tbl(r, |r| {
@@ -827,7 +887,7 @@ fn rnd_params(r: &mut Rng, name: &str) -> String {
 }
 /// may this input hold `e` (report Ended before its end)?
 fn may_unfuse(name: &str, side: &str) -> bool {
-    !matches!((name, side), ("chain", "A") | ("zip_longest", _))
+    !matches!((name, side), ("chain", "A") | ("zip_longest", _) | ("pl", "B"))
 }
 fn script_from_shape(r: &mut Rng, name: &str, sh: &[bool]) -> Vec<Tok<Item>> {
     sh.iter().map(|&b| if b { Tok::R(rnd_item(r, name)) } else { Tok::P }).collect()
